@@ -10,6 +10,7 @@ use crate::hist::*;
 use crate::mv::{MV, Ty};
 use crate::tape::{Fnv, Rec, Tape};
 use redb3::{ReadableDatabase as _, ReadableMultimapTable as _, ReadableTable as _, ReadableTableMetadata as _};
+use redb::{ReadableDatabase as _, ReadableTable as _};
 use serde_json::{Value, json};
 use std::collections::{BTreeMap, BTreeSet};
 use std::sync::{Arc, Mutex};
@@ -644,6 +645,90 @@ fn probe_composite() -> Result<(), Failure> {
     }
 }
 
+
+/// Enumerated stage: every built-in type that is not a composite (the composites are the known
+/// finding above), once as key and once as value, both directions. A table of that type written by
+/// this tree must be opened and read by redb 3.0.0 under the same Rust type, and a table of that
+/// type written by redb 3.0.0 into the same file must be opened and read by this tree.
+macro_rules! ty_probe {
+    ($out:ident, $n:ident, $label:expr, $k:ty, $v:ty, $kx:expr, $vx:expr) => {{
+        $n += 1;
+        let res = catch(|| -> Result<(), String> {
+            let backend = RecBackend::new(false);
+            let db = redb::Builder::new().create_with_backend(backend.clone()).map_err(|e| format!("harness: {e:?}"))?;
+            let def: redb::TableDefinition<$k, $v> = redb::TableDefinition::new("t");
+            let w = db.begin_write().map_err(|e| format!("harness: {e:?}"))?;
+            {
+                let mut t = w.open_table(def).map_err(|e| format!("harness: {e:?}"))?;
+                t.insert($kx, $vx).map_err(|e| format!("harness: {e:?}"))?;
+            }
+            w.commit().map_err(|e| format!("harness: {e:?}"))?;
+            drop(db);
+            let want = Some(format!("{:?}", $vx));
+            let (db3, b3) = open3(backend.image())?;
+            {
+                let rt = db3.begin_read().map_err(|e| format!("{e:?}"))?;
+                let d3: redb3::TableDefinition<$k, $v> = redb3::TableDefinition::new("t");
+                let t = rt.open_table(d3).map_err(|e| format!("redb 3.0.0 cannot open the table written by this tree: {e:?}"))?;
+                let got = t.get($kx).map_err(|e| format!("{e:?}"))?.map(|g| format!("{:?}", g.value()));
+                if got != want {
+                    return Err(format!("redb 3.0.0 reads {got:?} where this tree wrote {want:?}"));
+                }
+            }
+            let w3 = db3.begin_write().map_err(|e| format!("{e:?}"))?;
+            {
+                let d3: redb3::TableDefinition<$k, $v> = redb3::TableDefinition::new("u");
+                let mut t = w3.open_table(d3).map_err(|e| format!("redb 3.0.0 open_table(u): {e:?}"))?;
+                t.insert($kx, $vx).map_err(|e| format!("{e:?}"))?;
+            }
+            w3.commit().map_err(|e| format!("{e:?}"))?;
+            drop(db3);
+            let image = b3.0.lock().unwrap().clone();
+            let db = redb::Builder::new().create_with_backend(RecBackend::from_image(image, false)).map_err(|e| format!("this tree cannot open the file after redb 3.0.0 wrote to it: {e:?}"))?;
+            let rt = db.begin_read().map_err(|e| format!("{e:?}"))?;
+            for name in ["t", "u"] {
+                let d: redb::TableDefinition<$k, $v> = redb::TableDefinition::new(name);
+                let t = rt.open_table(d).map_err(|e| format!("this tree cannot open table {name:?} (t: written by this tree, u: written by redb 3.0.0): {e:?}"))?;
+                let got = t.get($kx).map_err(|e| format!("{e:?}"))?.map(|g| format!("{:?}", g.value()));
+                if got != want {
+                    return Err(format!("this tree reads {got:?} from table {name:?}, expected {want:?}"));
+                }
+            }
+            Ok(())
+        });
+        match res {
+            Ok(Ok(())) => {}
+            Ok(Err(e)) => $out.push((fail("type-grid", format!("Table<{}>: {e}", $label)), None)),
+            Err(p) => $out.push((fail("type-grid", format!("Table<{}>: panic: {p}", $label)), None)),
+        }
+    }};
+}
+
+fn probe_type_grid(out: &mut Vec<(Failure, Option<Tape>)>) -> u64 {
+    let mut n = 0u64;
+    ty_probe!(out, n, "u8,u16", u8, u16, 200u8, 60000u16);
+    ty_probe!(out, n, "u16,u8", u16, u8, 60000u16, 200u8);
+    ty_probe!(out, n, "u32,u128", u32, u128, 1u32 << 31, 1u128 << 100);
+    ty_probe!(out, n, "u128,u32", u128, u32, 1u128 << 100, 1u32 << 31);
+    ty_probe!(out, n, "u64,i64", u64, i64, 7u64, -7i64);
+    ty_probe!(out, n, "i8,i16", i8, i16, -100i8, -30000i16);
+    ty_probe!(out, n, "i16,i8", i16, i8, -30000i16, -100i8);
+    ty_probe!(out, n, "i32,i128", i32, i128, i32::MIN, -(1i128 << 100));
+    ty_probe!(out, n, "i128,i32", i128, i32, -(1i128 << 100), i32::MIN);
+    ty_probe!(out, n, "i64,u64", i64, u64, -7i64, 7u64);
+    ty_probe!(out, n, "bool,char", bool, char, true, '\u{10348}');
+    ty_probe!(out, n, "char,bool", char, bool, '\u{e9}', false);
+    ty_probe!(out, n, "(),f32", (), f32, (), 1.5f32);
+    ty_probe!(out, n, "u64,f64", u64, f64, 1u64, -2.25f64);
+    ty_probe!(out, n, "u64,()", u64, (), 1u64, ());
+    ty_probe!(out, n, "&str,String", &str, String, "k\u{e9}", "v\u{20ac}".to_string());
+    ty_probe!(out, n, "String,&str", String, &str, "k\u{e9}".to_string(), "v\u{20ac}");
+    ty_probe!(out, n, "String,String", String, String, String::new(), "x".to_string());
+    ty_probe!(out, n, "&[u8],&[u8]", &[u8], &[u8], &b"\x00\xff"[..], &b""[..]);
+    ty_probe!(out, n, "&[u8],&str", &[u8], &str, &b"k"[..], "");
+    n
+}
+
 impl Check for C19 {
     fn id(&self) -> &'static str {
         "C19"
@@ -681,6 +766,8 @@ impl Check for C19 {
     fn extra(&self, _tier: Tier, _seed: u64, acc: &mut Acc) -> Vec<(Failure, Option<Tape>)> {
         acc.extra.insert("known_finding_probes_run".into(), json!(2));
         let mut v = vec![];
+        let grid = probe_type_grid(&mut v);
+        acc.extra.insert("type_grid_tables_both_directions".into(), json!(grid));
         for probe in [probe_composite as fn() -> Result<(), Failure>, probe_ok_false] {
             match catch(probe) {
                 Ok(Ok(())) => {}
